@@ -104,17 +104,17 @@ let err_str (e : errkind) : Stdlib.String.t =
   | EUnclosedString -> "UnclosedString"
   | EUnicodeInChar -> "UnicodeInChar"
   | EBadFlavorIdent f -> "BadFlavorIdent " ^ flavor_str f
+  | EIntTooLarge -> "IntTooLarge"
 
-let crash_str = function
-  | COverflowChr -> "OverflowChr"
-  | CEncodeRaw -> "EncodeRaw"
-  | CIntDigits -> "IntDigits"
+(* `crash` has a single constant constructor (CEncodeRaw); extraction erases such a type, so
+   OCrash arrives without an argument *)
+let crash_str () = "EncodeRaw"
 
 let outcome_str (o : outcome) : Stdlib.String.t =
   match o with
   | ODone (l, c) -> Printf.sprintf "DONE %d %d" (int_of_z l) (int_of_z c)
   | OErr (e, l, c) -> Printf.sprintf "ERR %s %d %d" (err_str e) (int_of_z l) (int_of_z c)
-  | OCrash k -> "CRASH " ^ crash_str k
+  | OCrash -> "CRASH " ^ crash_str ()
   | OFuel -> "FUEL"
 
 let () =
